@@ -5,7 +5,7 @@
    Only statements closed by `exact <lemma>`, Print Assumptions, and Examples. *)
 From Coq Require Import NArith ZArith List Bool.
 From MiV Require Import Gen.Consts Gen.OsConsts Model.Arith Model.Os Model.Mask Model.Purge
-  Proofs.OsProofs Proofs.MaskProofs Proofs.PurgeProofs.
+  Proofs.OsProofs Proofs.MaskProofs Proofs.PurgeProofs Proofs.MaskSound.
 Import ListNotations.
 Local Open Scope N_scope.
 
@@ -81,6 +81,27 @@ Theorem C13_ensure_committed : forall cfg oracle o s p size now o' s',
   (mask_sound o s -> mask_sound o' s' /\ forall a, p <= a -> a < p + size -> accessible (os_k o') a = true).
 Proof. exact ensure_committed_spec. Qed.
 Print Assumptions C13_ensure_committed.
+
+
+(* the commit mask stays sound under purge, also in builds where a decommit revokes access (decommit_protects): every slice
+   whose commit bit is set after mi_segment_purge / mi_segment_try_purge / mi_segment_schedule_purge is accessible in the
+   ghost kernel afterwards -- for every (p, size), wrapped pointer arithmetic included: the range handed to _mi_os_purge is
+   exactly the slices of the conservative mask, and the commit bits of that mask are cleared whenever the OS call reports
+   needs_recommit (with C13_ensure_committed: the allocator never touches memory it has decommitted) *)
+Theorem C13_mask_sound_purge : forall cfg oracle o s p size, seg_ok2 s -> is_huge s = false -> mask_sound o s ->
+  mask_sound (fst (segment_purge cfg oracle o s p size)) (snd (segment_purge cfg oracle o s p size)).
+Proof. exact mask_sound_purge. Qed.
+Print Assumptions C13_mask_sound_purge.
+
+Theorem C13_mask_sound_try_purge : forall cfg oracle o s force now, seg_ok2 s -> is_huge s = false -> mask_sound o s ->
+  mask_sound (fst (segment_try_purge cfg oracle o s force now)) (snd (segment_try_purge cfg oracle o s force now)).
+Proof. exact mask_sound_try_purge. Qed.
+Print Assumptions C13_mask_sound_try_purge.
+
+Theorem C13_mask_sound_schedule_purge : forall cfg oracle o s p size now, seg_ok2 s -> is_huge s = false -> mask_sound o s ->
+  mask_sound (fst (segment_schedule_purge cfg oracle o s p size now)) (snd (segment_schedule_purge cfg oracle o s p size now)).
+Proof. exact mask_sound_schedule_purge. Qed.
+Print Assumptions C13_mask_sound_schedule_purge.
 
 (* purge_only_scheduled: every system call issued by mi_segment_try_purge is on the slices of one run of the purge mask,
    i.e. on slices that a span FREE scheduled and no allocation has taken back since (C13_ensure_committed clears them) *)
